@@ -34,6 +34,14 @@ theorem widestr_roundtrip (us : List Nat) (hl : us.length < 4294967296) (h : ∀
     wideStr (wideBytes us ++ rest) = .ok (us, 4 + us.length * 2) :=
   wideStr_wideBytes us hl h rest
 
+/-- the shared string table part is read back as exactly its strings, in order (BrtBeginSst with any total
+    count, one BrtSSTItem per string, each record framed with any widths; whatever follows is not read) — so that
+    `BrtCellIsst` indices resolve to the stored strings -/
+theorem sst_roundtrip (total : Nat) (hw : Bool) (hl : Nat) (strs : List (List Nat × Bool × Nat)) (post : Bytes)
+    (hn : strs.length < 4294967296) (h : ∀ s ∈ strs, s.1.length < 100000000 ∧ ∀ u ∈ s.1, u < 65536) :
+    readSharedStrings (sstBytes total hw hl strs post) = .ok (strs.map (·.1)) :=
+  readSharedStrings_enc total hw hl strs post hn h
+
 /-! ## cell records -/
 
 /-- each of the ten value records (BrtCellRk/Error/Bool/Real/St/Isst, BrtFmlaString/Num/Bool/Error) is read
@@ -171,6 +179,30 @@ theorem xlsb_empty_elsewhere (S : List (Nat × Nat × Val)) (r : Range.Rng Val)
     intro c hc
     simpa using hno c (List.mem_reverse.mp hc)
   rw [this]; rfl
+
+
+/-! ## termination -/
+
+/-- **termination**: with the fuel the model gives itself (one unit per byte of the part, plus one) reading a
+    worksheet part never runs out of fuel, whatever the bytes: every loop of `XlsbCellsReader::new` and of the
+    cell loop consumes at least two bytes per iteration -/
+theorem decodeSheet_total (ctx : Ctx) (bs : Bytes) : decodeSheet ctx bs ≠ .outOfFuel := by
+  unfold decodeSheet
+  obtain ⟨n1, n2⟩ := newReader_total bs
+  cases h1 : newReader bs with
+  | ok v =>
+    obtain ⟨dims, rest⟩ := v
+    have hs := n2 dims rest h1
+    simp only [dimLen]
+    have hc := readCells_fuel ctx (bs.length + 1) rest 0 (by omega)
+    cases h2 : readCells ctx (bs.length + 1) rest 0 with
+    | ok cells => exact fromSparse_ne_fuel _
+    | err e => simp
+    | panic s => simp
+    | outOfFuel => exact absurd h2 hc
+  | err e => simp
+  | panic s => simp
+  | outOfFuel => exact absurd h1 n1
 
 
 /-- non-vacuity: a row header, an RK date cell, an ignorable record, a formula-error cell -/
